@@ -102,19 +102,29 @@ def anchors(facts, fns):
     return {f["id"]: "|".join(sorted(up(f["id"]))) for f in fns}
 
 
-@rule("T3", ["C06"], floor=10, doc="every panicking construct (panic!/assert!/unreachable!, unwrap/expect, time arithmetic, length-checked slice "
+@rule("T3", ["C06"], floor=5, doc="every panicking construct (panic!/assert!/unreachable!, unwrap/expect, time arithmetic, length-checked slice "
       "copies) on a deserialization path is triaged in spec/panic_sites.json as data-independent; an untriaged site is reported")
 def t3(facts, tier):
     triage = {t["key"]: t["reason"] for t in json.load(open(os.path.join(SPEC, "panic_sites.json")))}
+    independent = []
     seen = {}
     rf = reader_fns(facts)
     anc = anchors(facts, rf)
+    from ..flow import parent_map
     for f in rf:
+        tv = None
+        pm = None
         for x in walk(f["body"]):
             if x.get("k") != "Call":
                 continue
             k = panic_kind(x)
             if k:
+                if tv is None:
+                    tv = tainted_vars(f)
+                    pm = parent_map(f["body"])
+                if not data_dependent(f, x, tv, pm):
+                    independent.append((f, x, k))
+                    continue
                 key = site_key(anc[f["id"]], k)
                 seen.setdefault(key, (f, x, 0))
                 seen[key] = (seen[key][0], seen[key][1], seen[key][2] + 1)
@@ -124,8 +134,10 @@ def t3(facts, tier):
             yield ob(["C06"], "T3", key, "pass", where(f, x), f"triaged ({n} site(s)): {reason}")
         else:
             yield ob(["C06"], "T3", key, "violation", where(f, x),
-                     f"untriaged panicking construct on a deserialization path: {key.rsplit(':', 2)[-2] if False else key} "
-                     f"— malformed input must yield Err, not a panic")
+                     f"untriaged panicking construct on a deserialization path that is fed by or control-dependent on data read "
+                     f"from the stream: {key} — malformed input must yield Err, not a panic")
+    yield ob(["C06"], "T3", "data-independent-sites", "pass", "", f"{len(independent)} panicking construct(s) on deserialization paths are "
+             f"neither fed by nor control-dependent on stream data", nontrivial=False)
 
 
 # ---------------------------------------------------------------------------------------------
@@ -485,3 +497,301 @@ def t2(facts, tier):
                 yield ob(["C06"], "T2", key, "violation", where(f, n),
                          f"{f['id']}: an untrusted length reaches `{name}` without being the allocated size or bounded against it: "
                          f"the returned collection can claim more elements than were read (out-of-bounds access)")
+
+
+# ---------------------------------------------------------------------------------------------
+# taint (any type): which variables hold data derived from the stream
+
+def tainted_vars(f):
+    """flow-insensitive: variables assigned from an expression that contains a stream read or a tainted variable"""
+    def has_source(n, tv):
+        for x in walk(n):
+            if x.get("k") == "Call":
+                c = callee(x) or ""
+                if c.startswith("savefile::Deserializer::read_") or x.get("trait") in ("byteorder::io::ReadBytesExt", "std::io::Read") \
+                        or c == "savefile::Deserialize::deserialize" or c.startswith("byteorder::ByteOrder::read_"):
+                    return True
+            if x.get("k") == "Var" and x["v"] in tv:
+                return True
+        return False
+    tv = set()
+    # private helpers and closures: their parameters may carry stream data handed in by a caller
+    anchored = bool(f.get("impl") and f["impl"].get("trait")) or (f.get("pub") and f.get("kind") != "Closure")
+    if not anchored:
+        for p in f["params"]:
+            if p.get("pat"):
+                for b in pat_binds(p["pat"]):
+                    if not re.search(r"Deserializer<|Serializer<", p.get("ty") or ""):
+                        tv.add(b["v"])
+    changed = True
+    while changed:
+        changed = False
+        for x in walk(f["body"]):
+            k = x.get("k")
+            tgt = []
+            src = None
+            if k == "LetS" and x.get("init") is not None:
+                src = x["init"]
+                tgt = [y["v"] for y in pat_binds(x["pat"])]
+            elif k in ("Assign", "AssignOp"):
+                src = x["r"]
+                l = peel(x["l"])
+                while isinstance(l, dict) and l.get("k") in ("Index", "Field"):
+                    l = peel(l["e"])
+                if isinstance(l, dict) and l.get("k") == "Var":
+                    tgt = [l["v"]]
+            elif k == "For":
+                src = x["iter"]
+                tgt = [y["v"] for y in pat_binds(x["pat"])]
+            elif k == "Match":
+                src = x["e"]
+                tgt = [y["v"] for a in x["arms"] for y in pat_binds(a["pat"])]
+            elif k == "Let":
+                src = x["e"]
+                tgt = [y["v"] for y in pat_binds(x["pat"])]
+            elif k == "Call" and (callee(x) or "") in ("std::io::Read::read_exact", "std::io::Read::read"):
+                # the buffer handed to a read becomes tainted
+                for a in x["args"][1:]:
+                    for y in walk(a):
+                        if y.get("k") == "Var" and y["v"] not in tv:
+                            tv.add(y["v"])
+                            changed = True
+            if src is not None and tgt and has_source(src, tv):
+                for t in tgt:
+                    if t not in tv:
+                        tv.add(t)
+                        changed = True
+    return tv
+
+
+def pat_binds(p):
+    out = []
+    k = p.get("k")
+    if k == "Bind":
+        out.append(p)
+        if "sub" in p:
+            out += pat_binds(p["sub"])
+    elif k in ("Leaf", "Variant"):
+        for s in p.get("subs", []):
+            out += pat_binds(s["p"])
+    elif k == "Or":
+        for q in p["pats"]:
+            out += pat_binds(q)
+    elif k == "Slice":
+        for q in p.get("prefix", []) + p.get("suffix", []):
+            out += pat_binds(q)
+        if p.get("slice"):
+            out += pat_binds(p["slice"])
+    return out
+
+
+def data_dependent(f, site, tv, pm):
+    """is the panicking construct fed by, or control-dependent on, data from the stream?"""
+    def mentions(n):
+        for x in walk(n):
+            if x.get("k") == "Var" and x["v"] in tv:
+                return True
+            if x.get("k") == "Call":
+                c = callee(x) or ""
+                if c.startswith("savefile::Deserializer::read_") or x.get("trait") in ("byteorder::io::ReadBytesExt",) \
+                        or c == "savefile::Deserialize::deserialize":
+                    return True
+        return False
+    if mentions(site):
+        return True
+    p = pm.get(id(site))
+    child = site
+    while p is not None:
+        k = p.get("k")
+        if k == "If" and child is not p["c"] and mentions(p["c"]):
+            return True
+        if k == "Match" and child is not p["e"] and mentions(p["e"]):
+            return True
+        if k in ("For",) and mentions(p["iter"]):
+            return True
+        if k == "LetS" and p.get("else") is child and p.get("init") is not None and mentions(p["init"]):
+            return True
+        child = p
+        p = pm.get(id(p))
+    return False
+
+
+# ---------------------------------------------------------------------------------------------
+# T4: capacity guards are inclusive
+
+@rule("T4", ["C01", "C06"], floor=1, doc="a length read from the stream that is checked against a container's capacity parameter is rejected only when it is "
+      "strictly greater: a completely full container is a value the writer produces")
+def t4(facts, tier):
+    from ..flow import parent_map
+    n = 0
+    for f in reader_fns(facts):
+        if f["crate"] != "savefile":
+            continue
+        tv = tainted_vars(f)
+        for x in walk(f["body"]):
+            if x.get("k") != "If":
+                continue
+            c = peel_block(peel(x["c"]))
+            if c.get("k") != "Bin" or c["op"] not in ("Gt", "Ge", "Lt", "Le"):
+                continue
+            l, r = peel(c["l"]), peel(c["r"])
+            lv = l.get("v") if l.get("k") == "Var" else None
+            rv = r.get("v") if r.get("k") == "Var" else None
+            cap_right = r.get("k") == "ConstParam" and lv in tv
+            cap_left = l.get("k") == "ConstParam" and rv in tv
+            if not (cap_right or cap_left):
+                continue
+            iv = Intervals(f)
+            if not iv.rejects(x["t"]):
+                continue
+            n += 1
+            op = c["op"] if cap_right else {"Gt": "Lt", "Ge": "Le", "Lt": "Gt", "Le": "Ge"}[c["op"]]
+            ok = op == "Gt"
+            key = (f.get("impl") or {}).get("self_ty", f["id"])
+            yield ob(["C01", "C06"], "T4", key, "pass" if ok else "violation", where(f, x),
+                     f"{f['id']}: length rejected only when it exceeds the capacity" if ok else
+                     f"{f['id']}: a length equal to the capacity parameter is rejected (`{c['op']}`): a completely full container saves but does not load")
+
+
+# ---------------------------------------------------------------------------------------------
+# T5: the bit count of a BitVec is bounded by the storage that was actually allocated (finite-domain evaluation of the
+# two length expressions)
+
+def arith(n, env):
+    """value of a pure arithmetic expression under env (var -> int); None if not evaluable"""
+    n = peel_block(peel(n))
+    k = n.get("k")
+    if k == "Lit" and "int" in n:
+        return n["int"]
+    if k == "Var":
+        return env.get(n["v"])
+    if k == "Cast":
+        return arith(n["e"], env)
+    if k == "Try":
+        return arith(n["e"], env)
+    if k == "Bin":
+        a, b = arith(n["l"], env), arith(n["r"], env)
+        if a is None or b is None:
+            return None
+        op = n["op"]
+        try:
+            if op == "Add":
+                return a + b
+            if op == "Sub":
+                return a - b
+            if op == "Mul":
+                return a * b
+            if op == "Div":
+                return a // b if b else None
+            if op == "Rem":
+                return a % b if b else None
+            if op == "Shl":
+                return a << b
+            if op == "Shr":
+                return a >> b
+            if op == "BitAnd":
+                return a & b
+            if op == "BitOr":
+                return a | b
+        except Exception:
+            return None
+        return None
+    if k == "Un" and n.get("op") == "Not":
+        a = arith(n["e"], env)
+        return None if a is None else (~a) & (2**64 - 1)
+    if k == "Call":
+        c = callee(n) or ""
+        m = re.search(r"::(checked|saturating|wrapping)_(mul|add|sub)$", c)
+        if m and len(n["args"]) == 2:
+            a, b = arith(n["args"][0], env), arith(n["args"][1], env)
+            if a is None or b is None:
+                return None
+            r = {"mul": a * b, "add": a + b, "sub": a - b}[m.group(2)]
+            return max(0, min(r, 2**64 - 1))
+        if c.endswith("::min") and len(n["args"]) == 2:
+            a, b = arith(n["args"][0], env), arith(n["args"][1], env)
+            return None if a is None or b is None else min(a, b)
+        if c.endswith("::max") and len(n["args"]) == 2:
+            a, b = arith(n["args"][0], env), arith(n["args"][1], env)
+            return None if a is None or b is None else max(a, b)
+    return None
+
+
+@rule("T5", ["C06"], floor=2, doc="BitVec readers: for every stored byte count (finite-domain evaluation over 0..67 and large values) the bound that the "
+      "bit count is checked against does not exceed the bits of the storage words actually allocated")
+def t5(facts, tier):
+    for f in reader_fns(facts):
+        if f["crate"] != "savefile" or "BitVec" not in f["id"] or (f.get("impl") or {}).get("trait") != "savefile::Deserialize":
+            continue
+        lets = []
+        resize_arg = setlen_arg = None
+        guard = None
+        elem_bits = 32
+        for x in walk(f["body"]):
+            k = x.get("k")
+            if k == "LetS" and x["pat"].get("k") == "Bind" and x.get("init") is not None:
+                lets.append((x["pat"]["v"], x["init"]))
+            if k in ("Assign", "AssignOp") and peel(x["l"]).get("k") == "Var":
+                lets.append((peel(x["l"])["v"], x["r"] if k == "Assign" else
+                             {"k": "Bin", "op": x["op"].replace("Assign", ""), "l": x["l"], "r": x["r"]}))
+            if k == "Call":
+                c = callee(x) or ""
+                if c.endswith("Vec::resize") and len(x["args"]) >= 2 and resize_arg is None:
+                    resize_arg = x["args"][1]
+                    m = re.search(r"Vec<(u\d+)", x["args"][0].get("ty", ""))
+                    if m:
+                        elem_bits = int(m.group(1)[1:])
+                if c.endswith("BitVec::set_len") and len(x["args"]) == 2:
+                    setlen_arg = x["args"][1]
+            if k == "If":
+                c = peel_block(peel(x["c"]))
+                if c.get("k") == "Bin" and c["op"] in ("Gt", "Ge") and Intervals(f).rejects(x["t"]):
+                    guard = guard or c
+        key = f["id"]
+        if resize_arg is None or setlen_arg is None:
+            continue
+        sv = peel(setlen_arg)
+        if guard is None or not (peel(guard["l"]).get("k") == "Var" and sv.get("k") == "Var" and peel(guard["l"])["v"] == sv["v"]):
+            yield ob(["C06"], "T5", key, "violation", where(f),
+                     f"{key}: set_len is not dominated by a reject-guard on the bit count")
+            continue
+        # free variables: stream values (first assignment from a read); evaluate let chain for samples
+        bad = None
+        samples = list(range(0, 68)) + [2**20 + i for i in range(4)] + [2**40 + 3]
+        src = None
+        for v, init in lets:
+            if any(is_source(y) for y in walk(init)):
+                src = src or []
+                src.append(v)
+        if not src:
+            yield ob(["C06"], "T5", key, "undecided", where(f), "stream sources not identified")
+            continue
+        und = False
+        for nb in samples:
+            env = {}
+            for v in src:
+                env[v] = nb
+            for v, init in lets:
+                if v in src and v in env and any(is_source(y) for y in walk(init)):
+                    continue
+                val = arith(init, env)
+                if val is not None:
+                    env[v] = val
+            bound = arith(guard["r"], env)
+            words = arith(resize_arg, env)
+            if bound is None or words is None:
+                und = True
+                break
+            allowed = bound if guard["op"] == "Gt" else bound - 1
+            if allowed > words * elem_bits:
+                bad = (nb, allowed, words)
+                break
+        if und:
+            yield ob(["C06"], "T5", key, "undecided", where(f), "bound or allocation expression not evaluable")
+        elif bad:
+            nb, allowed, words = bad
+            yield ob(["C06"], "T5", key, "violation", where(f),
+                     f"{key}: for a stored byte count of {nb} a bit count up to {allowed} passes the check but only {words} word(s) = "
+                     f"{words * elem_bits} bits are allocated: set_len claims more bits than the storage holds")
+        else:
+            yield ob(["C06"], "T5", key, "pass", where(f), f"accepted bit count <= allocated bits for all {len(samples)} sampled byte counts")
